@@ -4674,7 +4674,30 @@ func (p *Posix) GetObjectTagging(_ context.Context, bucket, object string) (map[
 	return p.getAttrTags(bucket, object)
 }
 
+// objectExists reports NoSuchKey for an object that is not there. The
+// attribute stores answer differently for a missing object (the sidecar
+// store keeps attributes in files of their own).
+func (p *Posix) objectExists(bucket, object string) error {
+	if object == "" {
+		return nil
+	}
+	_, err := os.Stat(filepath.Join(bucket, object))
+	if errors.Is(err, fs.ErrNotExist) || errors.Is(err, syscall.ENOTDIR) {
+		return s3err.GetAPIError(s3err.ErrNoSuchKey)
+	}
+	if errors.Is(err, syscall.ENAMETOOLONG) {
+		return s3err.GetAPIError(s3err.ErrKeyTooLong)
+	}
+	if err != nil {
+		return fmt.Errorf("stat object: %w", err)
+	}
+	return nil
+}
+
 func (p *Posix) getAttrTags(bucket, object string) (map[string]string, error) {
+	if err := p.objectExists(bucket, object); err != nil {
+		return nil, err
+	}
 	tags := make(map[string]string)
 	b, err := p.meta.RetrieveAttribute(nil, bucket, object, tagHdr)
 	if errors.Is(err, fs.ErrNotExist) || errors.Is(err, syscall.ENOTDIR) {
@@ -4702,6 +4725,10 @@ func (p *Posix) PutObjectTagging(_ context.Context, bucket, object string, tags 
 	}
 	if err != nil {
 		return fmt.Errorf("stat bucket: %w", err)
+	}
+
+	if err := p.objectExists(bucket, object); err != nil {
+		return err
 	}
 
 	if tags == nil {
